@@ -53,6 +53,12 @@ package upstream
 //@   ensures err == nil && mustSecure ==> sessionOf(ups.Connection) != nil && sessionOf(ups.Connection).Secure()   :required_security_is_met_or_no_session
 //@ func (ups *Packet) ConnectPacket
 //@   property C05, C04
+// C05: the key derived from the shared secret is a key the AES packet cipher accepts (and the same derivation as
+// the server's: same salt rule, iteration count and length), so an endpoint protected by a secret admits the
+// clients holding it
+//@   property C05
+//@   callsite pbkdf2.Key#1 (arg2 int, arg3 int) require arg2 == 1024 && arg3 == 32                    :key_derivation_parameters_agree_with_the_servers
+//@   property C05, C04
 //@   callsite NewClientConnection#1 (arg1 cert.TlsConfig) require arg1 == manager                       :session_handshake_gets_the_callers_certificate_manager
 //@   property C05, C04, C16
 //@   ensures err == nil ==> ups.Connection != nil                                                    :connected_means_connection
